@@ -1,11 +1,7 @@
-import WP.Props.C05
-import WP.Props.C09
-import WP.Props.C10
-import WP.Props.C02
-import WP.Props.C06
-import WP.Props.C03
+import WP.Props.FeePath
+import WP.Lemmas.Loop
 /-
-  The swap path: composition of the step lemmas along the whole swap loop (static-fee pools).
+  The swap path: composition of the step lemmas along the whole swap loop (static and adaptive fee).
 
   Invariant `Path` of the loop state, relative to the (unchanged) list of positions `ps`:
     * pool liquidity = Σ liquidity of the positions covering the current tick        (C05)
@@ -15,196 +11,12 @@ import WP.Props.C03
   proved to be preserved by every iteration given that the next-tick search returned the nearest
   initialized tick (`seqNext_*_interval`, C10) and that a step never moves the price past its target
   (`step_direction`, C02).  Consequences: `SwapPreserves` (C05), `PriceBounded` (C03) and "the swap
-  crosses exactly the initialized ticks on its path" (C10) for static-fee pools over consecutive,
+  crosses exactly the initialized ticks on its path" (C10) over consecutive,
   aligned tick arrays (what `try_build` hands to the loop: `start_indexes_consec`, `validStart_mod`).
 -/
 set_option linter.unusedSimpArgs false
 namespace WP.Path
 open WP WP.Gen WP.C05 WP.C10
-
-/-! ### tick index ↔ price consistency -/
-
-/-- the current tick index `t` and price `p` of a pool: `t` is the tick of `p`, or `p` sits exactly on
-    the price of `t + 1` (after crossing that tick leftwards) -/
-def TP (t : Int) (p : Nat) : Prop :=
-  (MIN_TICK_INDEX ≤ t ∧ t ≤ MAX_TICK_INDEX ∧ sp t ≤ p ∧ (t < MAX_TICK_INDEX → p ≤ sp (t + 1)) ∧ (t = MAX_TICK_INDEX → p = sp t)) ∨
-  (t = MIN_TICK_INDEX - 1 ∧ p = sp MIN_TICK_INDEX)
-
-theorem sp_min : sp MIN_TICK_INDEX = MIN_SQRT_PRICE_X64 := C09.sp_ends.1
-theorem sp_max : sp MAX_TICK_INDEX = MAX_SQRT_PRICE_X64 := C09.sp_ends.2
-theorem min_le_max : MIN_TICK_INDEX ≤ MAX_TICK_INDEX := by decide
-
-theorem sp_in_bounds (t : Int) (h1 : MIN_TICK_INDEX ≤ t) (h2 : t ≤ MAX_TICK_INDEX) :
-    MIN_SQRT_PRICE_X64 ≤ sp t ∧ sp t ≤ MAX_SQRT_PRICE_X64 := by
-  constructor
-  · rw [← sp_min]; exact C09.sp_le _ _ (Int.le_refl _) h1 h2
-  · rw [← sp_max]; exact C09.sp_le _ _ h1 h2 (Int.le_refl _)
-
-/-- strict monotonicity read backwards -/
-theorem lt_of_sp_lt (s t : Int) (hs1 : MIN_TICK_INDEX ≤ s) (hs2 : s ≤ MAX_TICK_INDEX) (ht1 : MIN_TICK_INDEX ≤ t) (ht2 : t ≤ MAX_TICK_INDEX)
-    (h : sp s < sp t) : s < t := by
-  by_cases c : s < t
-  · exact c
-  · have := C09.sp_le t s ht1 (by omega) hs2
-    omega
-
-theorem TP_ti (p : Nat) (h1 : MIN_SQRT_PRICE_X64 ≤ p) (h2 : p ≤ MAX_SQRT_PRICE_X64) : TP (ti p) p := by
-  obtain ⟨a, b, c, d⟩ := C09.ti_spec p h1 h2
-  left
-  refine ⟨a, b, c, fun h => Nat.le_of_lt (d h), ?_⟩
-  intro he
-  -- ti p = MAX: sp MAX ≤ p ≤ MAX_SQRT = sp MAX
-  rw [he] at c ⊢
-  rw [sp_max] at c ⊢
-  omega
-
-theorem TP_price_bounds (t : Int) (p : Nat) (h : TP t p) : MIN_SQRT_PRICE_X64 ≤ p ∧ p ≤ MAX_SQRT_PRICE_X64 := by
-  rcases h with ⟨a, b, c, d, e⟩ | ⟨a, b⟩
-  · have hb := sp_in_bounds t a b
-    constructor
-    · omega
-    · by_cases hm : t = MAX_TICK_INDEX
-      · rw [e hm]; exact hb.2
-      · have := d (by omega)
-        have := (sp_in_bounds (t + 1) (by omega) (by omega)).2
-        omega
-  · rw [b, sp_min]; exact ⟨Nat.le_refl _, by decide⟩
-
-/-- a→b, the price moved to `p'` with `sp n ≤ p' ≤ p`, `p' ≠ p`: the new tick index lies in [n, t] -/
-theorem ti_between_down (t n : Int) (p p' : Nat) (h : TP t p) (hn1 : MIN_TICK_INDEX ≤ n) (hn2 : n ≤ MAX_TICK_INDEX)
-    (h1 : sp n ≤ p') (h2 : p' ≤ p) (hne : p' ≠ p) : n ≤ ti p' ∧ ti p' ≤ t := by
-  have hb := TP_price_bounds t p h
-  have hnb := sp_in_bounds n hn1 hn2
-  have hp'1 : MIN_SQRT_PRICE_X64 ≤ p' := by omega
-  have hp'2 : p' ≤ MAX_SQRT_PRICE_X64 := by omega
-  obtain ⟨a, b, c, d⟩ := C09.ti_spec p' hp'1 hp'2
-  rcases h with ⟨ta, tb, tc, td, te⟩ | ⟨ta, tb⟩
-  · constructor
-    · -- sp n ≤ p' < sp (ti p' + 1)  (or ti p' = MAX)
-      by_cases hm : ti p' < MAX_TICK_INDEX
-      · have := d hm
-        have := lt_of_sp_lt n (ti p' + 1) hn1 hn2 (by omega) (by omega) (by omega)
-        omega
-      · omega
-    · -- sp (ti p') ≤ p' < p ≤ sp (t + 1)
-      by_cases hm : t = MAX_TICK_INDEX
-      · omega
-      · have h3 := td (by omega)
-        have := lt_of_sp_lt (ti p') (t + 1) a b (by omega) (by omega) (by omega)
-        omega
-  · -- p = MIN price: p' ≤ p and p' ≥ MIN price force p' = p
-    rw [tb, sp_min] at h2
-    exfalso; apply hne; rw [tb, sp_min]; omega
-
-/-- b→a, the price moved to `p'` with `p ≤ p' < sp n`: the new tick index lies in [t, n) -/
-theorem ti_between_up (t n : Int) (p p' : Nat) (h : TP t p) (hn1 : MIN_TICK_INDEX ≤ n) (hn2 : n ≤ MAX_TICK_INDEX)
-    (h1 : p ≤ p') (h2 : p' < sp n) : t ≤ ti p' ∧ ti p' < n := by
-  have hb := TP_price_bounds t p h
-  have hnb := sp_in_bounds n hn1 hn2
-  have hp'1 : MIN_SQRT_PRICE_X64 ≤ p' := by omega
-  have hp'2 : p' ≤ MAX_SQRT_PRICE_X64 := by omega
-  obtain ⟨a, b, c, d⟩ := C09.ti_spec p' hp'1 hp'2
-  constructor
-  · rcases h with ⟨ta, tb, tc, td, te⟩ | ⟨ta, tb⟩
-    · by_cases hm : ti p' < MAX_TICK_INDEX
-      · have := d hm
-        have := lt_of_sp_lt t (ti p' + 1) ta tb (by omega) (by omega) (by omega)
-        omega
-      · omega
-    · omega
-  · exact lt_of_sp_lt (ti p') n a b hn1 hn2 (by omega)
-
-theorem TP_cross_down (n : Int) (hn1 : MIN_TICK_INDEX ≤ n) (hn2 : n ≤ MAX_TICK_INDEX) : TP (n - 1) (sp n) := by
-  by_cases h : n = MIN_TICK_INDEX
-  · right; rw [h]; exact ⟨rfl, rfl⟩
-  · left
-    refine ⟨by omega, by omega, C09.sp_le _ _ (by omega) (by omega) hn2, ?_, ?_⟩
-    · intro _; have : n - 1 + 1 = n := by omega
-      rw [this]
-    · intro he; omega
-
-theorem TP_cross_up (n : Int) (hn1 : MIN_TICK_INDEX ≤ n) (hn2 : n ≤ MAX_TICK_INDEX) : TP n (sp n) := by
-  left
-  refine ⟨hn1, hn2, Nat.le_refl _, ?_, fun _ => rfl⟩
-  intro h; exact C09.sp_le _ _ hn1 (by omega) (by omega)
-
-
-/-! ### the tick map relative to the positions -/
-
-structure TickFacts (ticks : TickMap) (ps : List (Nat × PositionD)) (ts : Nat) : Prop where
-  net : ∀ i, (ticks.get i).net = sumBy (netContrib i) ps
-  gross : ∀ i, ((ticks.get i).gross : Int) = sumBy (grossContrib i) ps
-  init : ∀ i, (ticks.get i).initialized = decide ((ticks.get i).gross > 0)
-  ordered : ∀ kp ∈ ps, kp.2.lower < kp.2.upper
-  grid : ∀ kp ∈ ps, kp.2.lower % (ts : Int) = 0 ∧ kp.2.upper % (ts : Int) = 0 ∧
-    MIN_TICK_INDEX ≤ kp.2.lower ∧ kp.2.upper ≤ MAX_TICK_INDEX
-
-theorem gross_zero_of_no_bound (i : Int) : ∀ (ps : List (Nat × PositionD)),
-    (∀ kp ∈ ps, kp.2.lower ≠ i ∧ kp.2.upper ≠ i) → sumBy (grossContrib i) ps = 0 := by
-  intro ps
-  induction ps with
-  | nil => intro _; rfl
-  | cons hd tl ih =>
-    intro h
-    obtain ⟨k, w⟩ := hd
-    simp only [sumBy]
-    rw [ih (fun kp hk => h kp (List.mem_cons_of_mem _ hk))]
-    have := h (k, w) List.mem_cons_self
-    simp only [] at this
-    unfold grossContrib
-    simp [this.1, this.2]
-
-theorem init_grid (ticks : TickMap) (ps : List (Nat × PositionD)) (ts : Nat) (tf : TickFacts ticks ps ts) (i : Int)
-    (h : initAt ticks i = true) : i % (ts : Int) = 0 ∧ MIN_TICK_INDEX ≤ i ∧ i ≤ MAX_TICK_INDEX := by
-  -- initialized ⇒ gross > 0 ⇒ some position is bounded by i
-  have hg : sumBy (grossContrib i) ps ≠ 0 := by
-    intro h0
-    have h1 := tf.init i
-    have h2 := tf.gross i
-    unfold initAt at h
-    rw [h] at h1
-    have : (ticks.get i).gross > 0 := of_decide_eq_true h1.symm
-    omega
-  have hex : ∃ kp ∈ ps, kp.2.lower = i ∨ kp.2.upper = i := by
-    by_cases hh : ∃ kp ∈ ps, kp.2.lower = i ∨ kp.2.upper = i
-    · exact hh
-    · exfalso; apply hg
-      apply gross_zero_of_no_bound
-      intro kp hk
-      constructor
-      · intro e; exact hh ⟨kp, hk, Or.inl e⟩
-      · intro e; exact hh ⟨kp, hk, Or.inr e⟩
-  obtain ⟨kp, hk, hb⟩ := hex
-  have hgrid := tf.grid kp hk
-  have hord := tf.ordered kp hk
-  rcases hb with e | e <;> rw [← e] <;> refine ⟨by omega, by omega, by omega⟩
-
-theorem gross_zero_of_not_init (ticks : TickMap) (ps : List (Nat × PositionD)) (ts : Nat) (tf : TickFacts ticks ps ts) (i : Int)
-    (h : initAt ticks i = false) : sumBy (grossContrib i) ps = 0 := by
-  have h1 := tf.init i
-  have h2 := tf.gross i
-  unfold initAt at h
-  rw [h] at h1
-  have : ¬ (ticks.get i).gross > 0 := of_decide_eq_false h1.symm
-  omega
-
-/-- no initialized grid tick in (a, b] ⇒ the covering sum is the same at a and b -/
-theorem cover_const (ticks : TickMap) (ps : List (Nat × PositionD)) (ts : Nat) (tf : TickFacts ticks ps ts) (a b : Int) (hab : a ≤ b)
-    (h : ∀ x, a < x → x ≤ b → x % (ts : Int) = 0 → initAt ticks x = false) :
-    sumBy (inRangeLiq a) ps = sumBy (inRangeLiq b) ps := by
-  have := range_const ps tf.ordered (b - a).toNat a (by
-    intro i h1 h2
-    have h2' : i ≤ b := by omega
-    cases hi : initAt ticks i with
-    | false => exact gross_zero_of_not_init ticks ps ts tf i hi
-    | true =>
-      have := init_grid ticks ps ts tf i hi
-      have := h i h1 h2' this.1
-      rw [hi] at this; cases this)
-  have e : a + ((b - a).toNat : Int) = b := by omega
-  rw [e] at this
-  exact this
-
 
 /-! ### one iteration, static fee -/
 
@@ -252,19 +64,21 @@ theorem stepCross_spec (c : SwapCtx) (s : SwapSt) (sc : SwapStep) (fgIn nai : Na
     · rw [if_neg hq] at h; cases h
       right; right; exact ⟨hp, by simpa using hq, rfl, rfl, rfl⟩
 
-/-- one iteration with the static fee manager -/
-theorem swapStep_static (c : SwapCtx) (s s' : SwapSt) (nai : Nat) (nti : Int) (ntp tgt r : Nat) (hfm : s.fm = .static r)
+/-- the parts of one iteration -/
+theorem swapStep_parts (c : SwapCtx) (s s' : SwapSt) (nai : Nat) (nti : Int) (ntp tgt : Nat)
     (h : swapStep c s nai nti ntp tgt = .ok s') :
-    ∃ sc fg cr, computeSwap s.remaining r s.liq s.price tgt c.isInput c.aToB = .ok sc ∧
+    ∃ sc fg cr, computeSwap s.remaining s.fm.updateVolAcc.totalFeeRate s.liq s.price
+        (s.fm.updateVolAcc.boundedTarget tgt s.liq).1 c.isInput c.aToB = .ok sc ∧
       stepCross c s sc fg nai nti ntp = .ok cr ∧
-      s'.price = sc.nextPrice ∧ s'.tick = cr.tick ∧ s'.liq = cr.liq ∧ s'.ticks = cr.ticks ∧ s'.fm = .static r ∧
+      s'.price = sc.nextPrice ∧ s'.tick = cr.tick ∧ s'.liq = cr.liq ∧ s'.ticks = cr.ticks ∧
+      (((s.fm.updateVolAcc.boundedTarget tgt s.liq).2 = false ∧ s'.fm = s.fm.updateVolAcc.advance) ∨
+        s.fm.updateVolAcc.advanceAfterSkip sc.nextPrice ntp nti = .ok s'.fm) ∧
       s'.remaining ≤ s.remaining := by
   have hle : s'.remaining ≤ s.remaining := by
     obtain ⟨sc2, _, _, hamt, _⟩ := C06.swapStep_inv c s s' nai nti ntp tgt h
     split at hamt <;> omega
   unfold swapStep at h
-  rw [hfm] at h
-  simp only [FeeMgr.updateVolAcc, FeeMgr.totalFeeRate, FeeMgr.boundedTarget, FeeMgr.advance] at h
+  simp only [] at h
   split at h
   · cases h
   · rename_i sc hsc
@@ -275,10 +89,25 @@ theorem swapStep_static (c : SwapCtx) (s s' : SwapSt) (nai : Nat) (nti : Int) (n
       · split at h
         · cases h
         · rename_i cr hcr
-          simp only [Bool.false_eq_true, if_false, Bool.not_false, if_true] at h
-          cases h
-          exact ⟨sc, _, cr, hsc, hcr, rfl, rfl, rfl, rfl, rfl, hle⟩
-
+          split at h
+          · cases h
+          · rename_i fm' hfm'
+            cases h
+            refine ⟨sc, _, cr, hsc, hcr, rfl, rfl, rfl, rfl, ?_, hle⟩
+            by_cases hb : (s.fm.updateVolAcc.boundedTarget tgt s.liq).2 = true
+            · right
+              rw [hb] at hfm'
+              simp only [Bool.not_true, Bool.false_eq_true, if_false] at hfm'
+              exact hfm'
+            · left
+              have hb' : (s.fm.updateVolAcc.boundedTarget tgt s.liq).2 = false := by
+                cases hh : (s.fm.updateVolAcc.boundedTarget tgt s.liq).2 with
+                | true => exact absurd hh hb
+                | false => rfl
+              rw [hb'] at hfm'
+              simp only [Bool.not_false, if_true] at hfm'
+              cases hfm'
+              exact ⟨hb', rfl⟩
 
 /-! ### the loop invariant -/
 
@@ -313,7 +142,7 @@ structure Path (c : SwapCtx) (ps : List (Nat × PositionD)) (p0 : Nat) (s : Swap
   tf : TickFacts s.ticks ps c.ts
   tp : TP s.tick s.price
   lim : if c.aToB then c.limit ≤ s.price ∧ s.price ≤ p0 else p0 ≤ s.price ∧ s.price ≤ c.limit
-  fm : ∃ r, s.fm = .static r ∧ r ≤ FEE_RATE_HARD_LIMIT
+  fm : FmOK c.aToB s.tick s.fm
   remU : s.remaining ≤ U64_MAX
   liqU : s.liq ≤ U128_MAX
 
@@ -388,8 +217,8 @@ theorem step_down (c : SwapCtx) (ps : List (Nat × PositionD)) (p0 : Nat) (s s' 
     (ok : CtxOK c) (hd : c.aToB = true) (P : Path c ps p0 s) (A : Aim c s nai nti)
     (h : swapStep c s nai nti (sp nti) (max c.limit (sp nti)) = .ok s') :
     Path c ps p0 s' ∧ (s'.price ≠ max c.limit (sp nti) → Aim c s' nai nti) := by
-  obtain ⟨r, hfm, hr⟩ := P.fm
-  obtain ⟨sc, fg, cr, hsc, hcr, ep, et, el, etk, efm, erem⟩ := swapStep_static c s s' nai nti (sp nti) _ r hfm h
+  have hfm0 : FmOK true s.tick s.fm := by rw [← hd]; exact P.fm
+  obtain ⟨sc, fg, cr, hsc, hcr, ep, et, el, etk, efm, erem⟩ := swapStep_parts c s s' nai nti (sp nti) _ h
   unfold Aim at A
   rw [if_pos hd] at A
   obtain ⟨n1, n2, ⟨st, hst, l1, l2⟩, n3, hno⟩ := A
@@ -401,16 +230,30 @@ theorem step_down (c : SwapCtx) (ps : List (Nat × PositionD)) (p0 : Nat) (s s' 
     rcases P.tp with ⟨a, b, c', _, _⟩ | ⟨a, _⟩
     · have := C09.sp_le nti s.tick n1 n3 b; omega
     · omega
-  have wf : C02.WFStep s.remaining r s.liq s.price (max c.limit (sp nti)) c.aToB :=
-    { cur_lo := hpb.1, cur_hi := hpb.2, tgt_lo := Nat.le_trans ok.lim_lo (Nat.le_max_left _ _),
-      tgt_hi := Nat.max_le.mpr ⟨ok.lim_hi, hnb.2⟩,
-      dirOk := by rw [if_pos hd]; exact Nat.max_le.mpr ⟨hlim.1, hsn⟩,
-      remU := P.remU, LU := P.liqU, rateOk := hr }
-  have hdir := C02.step_direction _ _ _ _ _ _ _ sc wf hsc
-  rw [if_pos hd] at hdir
+  have htk : MIN_TICK_INDEX ≤ s.tick ∧ s.tick ≤ MAX_TICK_INDEX ∧ sp s.tick ≤ s.price := by
+    rcases P.tp with ⟨a, b, c', _, _⟩ | ⟨a, _⟩
+    · exact ⟨a, b, c'⟩
+    · omega
+  have htgt : max c.limit (sp nti) ≤ s.price := Nat.max_le.mpr ⟨hlim.1, hsn⟩
+  have hbd := fm_bounded_down s.fm s.tick s.price (max c.limit (sp nti)) s.liq hfm0 htk.1 htk.2.1 htk.2.2 htgt
+  have wf : C02.WFStep s.remaining s.fm.updateVolAcc.totalFeeRate s.liq s.price
+      (s.fm.updateVolAcc.boundedTarget (max c.limit (sp nti)) s.liq).1 c.aToB :=
+    { cur_lo := hpb.1, cur_hi := hpb.2,
+      tgt_lo := Nat.le_trans (Nat.le_trans ok.lim_lo (Nat.le_max_left _ _)) hbd.1,
+      tgt_hi := Nat.le_trans hbd.2 hpb.2,
+      dirOk := by rw [if_pos hd]; exact hbd.2,
+      remU := P.remU, LU := P.liqU, rateOk := rate_ok true s.tick s.fm hfm0 }
+  have hdir0 := C02.step_direction _ _ _ _ _ _ _ sc wf hsc
+  rw [if_pos hd] at hdir0
+  have hdir : max c.limit (sp nti) ≤ sc.nextPrice ∧ sc.nextPrice ≤ s.price := ⟨Nat.le_trans hbd.1 hdir0.1, hdir0.2⟩
   have hge : sp nti ≤ sc.nextPrice := Nat.le_trans (Nat.le_max_right _ _) hdir.1
   have hgl : c.limit ≤ sc.nextPrice := Nat.le_trans (Nat.le_max_left _ _) hdir.1
-  have hfm' : ∃ r, s'.fm = .static r ∧ r ≤ FEE_RATE_HARD_LIMIT := ⟨r, efm, hr⟩
+  have hp'b : MIN_SQRT_PRICE_X64 ≤ sc.nextPrice ∧ sc.nextPrice ≤ MAX_SQRT_PRICE_X64 := ⟨by omega, by omega⟩
+  have hfmN : StepEnd true s.tick s'.tick nti s.price sc.nextPrice → FmOK c.aToB s'.tick s'.fm := by
+    intro hend
+    rw [hd]
+    exact fm_next_down s.fm s'.fm s.tick s'.tick nti s.price sc.nextPrice _ s.liq hfm0 P.tp htk.1 htgt hp'b.1 hp'b.2
+      hdir0.1 hend efm
   have hrem' : s'.remaining ≤ U64_MAX := Nat.le_trans erem P.remU
   have hlim' : if c.aToB then c.limit ≤ s'.price ∧ s'.price ≤ p0 else p0 ≤ s'.price ∧ s'.price ≤ c.limit := by
     rw [if_pos hd, ep]; exact ⟨hgl, Nat.le_trans hdir.2 hlim.2⟩
@@ -427,7 +270,7 @@ theorem step_down (c : SwapCtx) (ps : List (Nat × PositionD)) (p0 : Nat) (s s' 
     · exact { liq := by rw [el, et, htick, e1, ← hcp]; omega,
               tf := by rw [etk]; exact tf',
               tp := by rw [et, htick, ep, hp]; exact TP_cross_down nti n1 n2,
-              lim := hlim', fm := hfm', remU := hrem', liqU := by rw [el]; exact e2 }
+              lim := hlim', fm := hfmN (Or.inl ⟨hp, by rw [et, htick, if_pos rfl], n1, n2⟩), remU := hrem', liqU := by rw [el]; exact e2 }
     · intro hne; exfalso; apply hne
       rw [ep]
       have h1 := hdir.1
@@ -442,7 +285,7 @@ theorem step_down (c : SwapCtx) (ps : List (Nat × PositionD)) (p0 : Nat) (s s' 
     · exact { liq := by rw [el, et, hliq, htick, hcov]; exact P.liq,
               tf := by rw [etk, hticks]; exact P.tf,
               tp := by rw [et, htick, ep]; exact TP_ti _ hp'b.1 hp'b.2,
-              lim := hlim', fm := hfm', remU := hrem', liqU := by rw [el, hliq]; exact P.liqU }
+              lim := hlim', fm := hfmN (Or.inr (Or.inl ⟨hp, hq, by rw [et, htick]⟩)), remU := hrem', liqU := by rw [el, hliq]; exact P.liqU }
     · intro _
       unfold Aim
       rw [if_pos hd, et, htick, etk, hticks]
@@ -452,7 +295,7 @@ theorem step_down (c : SwapCtx) (ps : List (Nat × PositionD)) (p0 : Nat) (s s' 
     · exact { liq := by rw [el, et, hliq, htick]; exact P.liq,
               tf := by rw [etk, hticks]; exact P.tf,
               tp := by rw [et, htick, ep, hq]; exact P.tp,
-              lim := hlim', fm := hfm', remU := hrem', liqU := by rw [el, hliq]; exact P.liqU }
+              lim := hlim', fm := hfmN (Or.inr (Or.inr ⟨hp, hq, by rw [et, htick]⟩)), remU := hrem', liqU := by rw [el, hliq]; exact P.liqU }
     · intro _
       unfold Aim
       rw [if_pos hd, et, htick, etk, hticks]
@@ -464,8 +307,9 @@ theorem step_up (c : SwapCtx) (ps : List (Nat × PositionD)) (p0 : Nat) (s s' : 
     (ok : CtxOK c) (hd : ¬ c.aToB = true) (P : Path c ps p0 s) (A : Aim c s nai nti)
     (h : swapStep c s nai nti (sp nti) (min c.limit (sp nti)) = .ok s') :
     Path c ps p0 s' ∧ (s'.price ≠ min c.limit (sp nti) → Aim c s' nai nti) := by
-  obtain ⟨r, hfm, hr⟩ := P.fm
-  obtain ⟨sc, fg, cr, hsc, hcr, ep, et, el, etk, efm, erem⟩ := swapStep_static c s s' nai nti (sp nti) _ r hfm h
+  have hd' : c.aToB = false := by cases hb : c.aToB <;> simp_all
+  have hfm0 : FmOK false s.tick s.fm := by rw [← hd']; exact P.fm
+  obtain ⟨sc, fg, cr, hsc, hcr, ep, et, el, etk, efm, erem⟩ := swapStep_parts c s s' nai nti (sp nti) _ h
   unfold Aim at A
   rw [if_neg hd] at A
   obtain ⟨n1, n2, ⟨st, hst, l1, l2⟩, n3, hno⟩ := A
@@ -478,16 +322,31 @@ theorem step_up (c : SwapCtx) (ps : List (Nat × PositionD)) (p0 : Nat) (s s' : 
     · have h1 := d (by omega)
       have := C09.sp_le (s.tick + 1) nti (by omega) (by omega) n2; omega
     · rw [b]; exact C09.sp_le _ _ (Int.le_refl _) n1 n2
-  have wf : C02.WFStep s.remaining r s.liq s.price (min c.limit (sp nti)) c.aToB :=
-    { cur_lo := hpb.1, cur_hi := hpb.2, tgt_lo := Nat.le_min.mpr ⟨ok.lim_lo, hnb.1⟩,
-      tgt_hi := Nat.le_trans (Nat.min_le_left _ _) ok.lim_hi,
-      dirOk := by rw [if_neg hd]; exact Nat.le_min.mpr ⟨hlim.2, hsn⟩,
-      remU := P.remU, LU := P.liqU, rateOk := hr }
-  have hdir := C02.step_direction _ _ _ _ _ _ _ sc wf hsc
-  rw [if_neg hd] at hdir
+  have htk : MIN_TICK_INDEX - 1 ≤ s.tick ∧ s.tick < MAX_TICK_INDEX ∧ s.price ≤ sp (s.tick + 1) := by
+    rcases P.tp with ⟨a, b, _, d, _⟩ | ⟨a, b⟩
+    · exact ⟨by omega, by omega, d (by omega)⟩
+    · refine ⟨by omega, by omega, ?_⟩
+      rw [a, b, show MIN_TICK_INDEX - 1 + 1 = MIN_TICK_INDEX by omega]
+  have htgt : s.price ≤ min c.limit (sp nti) := Nat.le_min.mpr ⟨hlim.2, hsn⟩
+  have hbd := fm_bounded_up s.fm s.tick s.price (min c.limit (sp nti)) s.liq hfm0 htk.1 htk.2.1 htk.2.2 htgt
+  have wf : C02.WFStep s.remaining s.fm.updateVolAcc.totalFeeRate s.liq s.price
+      (s.fm.updateVolAcc.boundedTarget (min c.limit (sp nti)) s.liq).1 c.aToB :=
+    { cur_lo := hpb.1, cur_hi := hpb.2,
+      tgt_lo := Nat.le_trans hpb.1 hbd.1,
+      tgt_hi := Nat.le_trans hbd.2 (Nat.le_trans (Nat.min_le_left _ _) ok.lim_hi),
+      dirOk := by rw [if_neg hd]; exact hbd.1,
+      remU := P.remU, LU := P.liqU, rateOk := rate_ok false s.tick s.fm hfm0 }
+  have hdir0 := C02.step_direction _ _ _ _ _ _ _ sc wf hsc
+  rw [if_neg hd] at hdir0
+  have hdir : s.price ≤ sc.nextPrice ∧ sc.nextPrice ≤ min c.limit (sp nti) := ⟨hdir0.1, Nat.le_trans hdir0.2 hbd.2⟩
   have hge : sc.nextPrice ≤ sp nti := Nat.le_trans hdir.2 (Nat.min_le_right _ _)
   have hgl : sc.nextPrice ≤ c.limit := Nat.le_trans hdir.2 (Nat.min_le_left _ _)
-  have hfm' : ∃ r, s'.fm = .static r ∧ r ≤ FEE_RATE_HARD_LIMIT := ⟨r, efm, hr⟩
+  have hp'b : MIN_SQRT_PRICE_X64 ≤ sc.nextPrice ∧ sc.nextPrice ≤ MAX_SQRT_PRICE_X64 := ⟨by omega, by omega⟩
+  have hfmN : StepEnd false s.tick s'.tick nti s.price sc.nextPrice → FmOK c.aToB s'.tick s'.fm := by
+    intro hend
+    rw [hd']
+    exact fm_next_up s.fm s'.fm s.tick s'.tick nti s.price sc.nextPrice _ s.liq hfm0 P.tp htk.2.1 htgt hp'b.1 hp'b.2
+      hdir0.2 hend efm
   have hrem' : s'.remaining ≤ U64_MAX := Nat.le_trans erem P.remU
   have hlim' : if c.aToB then c.limit ≤ s'.price ∧ s'.price ≤ p0 else p0 ≤ s'.price ∧ s'.price ≤ c.limit := by
     rw [if_neg hd, ep]; exact ⟨Nat.le_trans hlim.1 hdir.1, hgl⟩
@@ -503,7 +362,7 @@ theorem step_up (c : SwapCtx) (ps : List (Nat × PositionD)) (p0 : Nat) (s s' : 
     · exact { liq := by rw [el, et, htick, e1, ← hcp],
               tf := by rw [etk]; exact tf',
               tp := by rw [et, htick, ep, hp]; exact TP_cross_up nti n1 n2,
-              lim := hlim', fm := hfm', remU := hrem', liqU := by rw [el]; exact e2 }
+              lim := hlim', fm := hfmN (Or.inl ⟨hp, by rw [et, htick, if_neg (by simp)], n1, n2⟩), remU := hrem', liqU := by rw [el]; exact e2 }
     · intro hne; exfalso; apply hne
       rw [ep]
       have h1 := hdir.2
@@ -517,7 +376,7 @@ theorem step_up (c : SwapCtx) (ps : List (Nat × PositionD)) (p0 : Nat) (s s' : 
     · exact { liq := by rw [el, et, hliq, htick, ← hcov]; exact P.liq,
               tf := by rw [etk, hticks]; exact P.tf,
               tp := by rw [et, htick, ep]; exact TP_ti _ hp'b.1 hp'b.2,
-              lim := hlim', fm := hfm', remU := hrem', liqU := by rw [el, hliq]; exact P.liqU }
+              lim := hlim', fm := hfmN (Or.inr (Or.inl ⟨hp, hq, by rw [et, htick]⟩)), remU := hrem', liqU := by rw [el, hliq]; exact P.liqU }
     · intro _
       unfold Aim
       rw [if_neg hd, et, htick, etk, hticks]
@@ -526,7 +385,7 @@ theorem step_up (c : SwapCtx) (ps : List (Nat × PositionD)) (p0 : Nat) (s s' : 
     · exact { liq := by rw [el, et, hliq, htick]; exact P.liq,
               tf := by rw [etk, hticks]; exact P.tf,
               tp := by rw [et, htick, ep, hq]; exact P.tp,
-              lim := hlim', fm := hfm', remU := hrem', liqU := by rw [el, hliq]; exact P.liqU }
+              lim := hlim', fm := hfmN (Or.inr (Or.inr ⟨hp, hq, by rw [et, htick]⟩)), remU := hrem', liqU := by rw [el, hliq]; exact P.liqU }
     · intro _
       unfold Aim
       rw [if_neg hd, et, htick, etk, hticks]
@@ -704,11 +563,125 @@ theorem swap_parts (p : PoolD) (ticks : TickMap) (arrays : List Int) (amount lim
         · rename_i s hs
           exact ⟨rewards, fm, s, hfm, hs, h⟩
 
-/-- **the swap of a static-fee pool, as a whole**: for ANY tick map and ANY set of positions that
+/-- static pools keep a static manager, adaptive pools an adaptive one with the same constants -/
+def FmKind (af : Option AfInfo) (fm : FeeMgr) : Prop :=
+  match af, fm with
+  | none, .static _ => True
+  | some info, .adaptive m => m.c = info.constants
+  | _, _ => False
+
+theorem step_kind (c : SwapCtx) (s s' : SwapSt) (nai : Nat) (nti : Int) (ntp tgt : Nat) (af : Option AfInfo)
+    (hk : FmKind af s.fm) (h : swapStep c s nai nti ntp tgt = .ok s') : FmKind af s'.fm := by
+  obtain ⟨sc, _, _, _, _, _, _, _, _, hfm, _⟩ := swapStep_parts c s s' nai nti ntp tgt h
+  cases hf : s.fm with
+  | static r =>
+    rw [hf] at hfm hk
+    rcases hfm with ⟨_, e⟩ | e
+    · rw [e]; exact hk
+    · cases e
+  | adaptive m =>
+    rw [hf] at hfm hk
+    cases af with
+    | none => exact absurd hk (by unfold FmKind; simp)
+    | some info =>
+      rcases hfm with ⟨_, e⟩ | e
+      · rw [e]; exact hk
+      · obtain ⟨m2, e2, _, a2, _⟩ := afterSkip_spec _ _ _ _ _ e
+        rw [e2]
+        show m2.c = info.constants
+        rw [a2]; exact hk
+
+/-- **the swap as a whole, static or adaptive fee**: for ANY tick map and ANY set of positions that
     the tick map is consistent with, any amount, limit, mode and direction, over an aligned
     consecutive array sequence of any length: the resulting liquidity is again the sum of the
     positions covering the resulting tick, the tick map stays consistent, the tick index stays
-    consistent with the price, and the price ends between the limit and the starting price. -/
+    consistent with the price, the price ends between the limit and the starting price, and the
+    adaptive-fee state stays in range. -/
+theorem swap_path (p : PoolD) (ticks : TickMap) (ps : List (Nat × PositionD)) (arrays : List Int) (amount limit : Nat)
+    (isInput aToB : Bool) (now fuel : Nat) (af : Option AfInfo) (u : PostSwap)
+    (hts : 0 < p.ts) (hseq : SeqOK arrays p.ts aToB)
+    (hliq : (p.liq : Int) = sumBy (inRangeLiq p.tick) ps) (tf : TickFacts ticks ps p.ts) (tp : TP p.tick p.price)
+    (hL : p.liq ≤ U128_MAX) (hfee : p.feeRate ≤ FEE_RATE_HARD_LIMIT) (hamt : amount ≤ U64_MAX)
+    (haf : ∀ info, af = some info → InfoOK info)
+    (h : swap p ticks arrays amount limit isInput aToB now af fuel = .ok u) :
+    (u.liq : Int) = sumBy (inRangeLiq u.tick) ps ∧ TickFacts u.ticks ps p.ts ∧ TP u.tick u.price ∧ u.liq ≤ U128_MAX ∧
+    (if aToB then adjLimit limit aToB ≤ u.price ∧ u.price ≤ p.price else p.price ≤ u.price ∧ u.price ≤ adjLimit limit aToB) ∧
+    (af = none → u.afInfo = none) ∧
+    (∀ info, af = some info → ∃ info', u.afInfo = some info' ∧ info'.constants = info.constants ∧ InfoOK info') := by
+  obtain ⟨g1, g2, g3, _⟩ := C03.swap_limit_guard _ _ _ _ _ _ _ _ _ _ _ h
+  obtain ⟨rewards, fm, s, hfm, hloop, hfin⟩ := swap_parts _ _ _ _ _ _ _ _ _ _ _ h
+  have htb : MIN_TICK_INDEX - 1 ≤ p.tick ∧ p.tick ≤ MAX_TICK_INDEX := by
+    have := min_le_max
+    rcases tp with ⟨a, b, _⟩ | ⟨a, _⟩ <;> omega
+  have hfm0 := new_ok aToB p.tick now p.feeRate af fm hfee haf htb.1 htb.2 hfm
+  have hk0 : FmKind af fm := by
+    unfold FeeMgr.new at hfm
+    cases af with
+    | none => cases hfm; trivial
+    | some info =>
+      simp only [] at hfm
+      split at hfm
+      · cases hfm
+      · cases hfm; show info.constants = info.constants; rfl
+  have ok : CtxOK (swapCtxOf p arrays limit isInput aToB rewards) :=
+    { ts := hts, consec := hseq.1, aligned := hseq.2, lim_lo := g1, lim_hi := g2 }
+  have P0 : Path (swapCtxOf p arrays limit isInput aToB rewards) ps p.price (swapInit p ticks amount aToB fm) :=
+    { liq := hliq, tf := tf, tp := tp,
+      lim := by
+        show if aToB = true then adjLimit limit aToB ≤ p.price ∧ p.price ≤ p.price else p.price ≤ p.price ∧ p.price ≤ adjLimit limit aToB
+        by_cases hd : aToB = true
+        · rw [if_pos hd] at g3 ⊢; exact ⟨Nat.le_of_lt g3, Nat.le_refl _⟩
+        · rw [if_neg hd] at g3 ⊢; exact ⟨Nat.le_refl _, Nat.le_of_lt g3⟩,
+      fm := hfm0, remU := hamt, liqU := hL }
+  have P := loop_path _ ps p.price ok fuel _ none s P0 (fun _ _ _ _ he => by cases he) hloop
+  have hk : FmKind af s.fm :=
+    swapLoop_induct _ (fun st => FmKind af st.fm) (fun a b nai nti ntp tgt ha hs => step_kind _ a b nai nti ntp tgt af ha hs)
+      fuel _ s none hk0 hloop
+  have hfmE := P.fm
+  unfold swapFinish at hfin
+  split at hfin
+  · cases hfin
+  · split at hfin
+    · cases hfin
+    · rename_i fm' hfm'
+      cases hfin
+      refine ⟨P.liq, P.tf, P.tp, P.liqU, P.lim, ?_, ?_⟩
+      · intro hnone
+        rw [hnone] at hk
+        cases hf : s.fm with
+        | static r =>
+          rw [hf] at hfm'
+          unfold FeeMgr.updateMajorSwapTs at hfm'
+          cases hfm'
+          rfl
+        | adaptive m => rw [hf] at hk; exact absurd hk (by unfold FmKind; simp)
+      · intro info hinfo
+        rw [hinfo] at hk
+        obtain ⟨igs, ired, _⟩ := haf info hinfo
+        cases hf : s.fm with
+        | static r => rw [hf] at hk; exact absurd hk (by unfold FmKind; simp)
+        | adaptive m =>
+          rw [hf] at hk hfm' hfmE
+          have hc : m.c = info.constants := hk
+          obtain ⟨_, _, hv⟩ := hfmE
+          unfold FeeMgr.updateMajorSwapTs at hfm'
+          simp only [] at hfm'
+          split at hfm'
+          · cases hfm'
+          · rename_i v' hv'
+            cases hfm'
+            refine ⟨_, rfl, hc, ?_⟩
+            have hvv : VarOK m.c v' := by
+              unfold AfVariables.updateMajorSwapTs at hv'
+              split at hv'
+              · cases hv'
+              · cases hv'; exact hv
+              · cases hv'; exact hv
+            exact { gs := by show 0 < m.c.groupSize; rw [hc]; exact igs,
+                    red := by show m.c.reductionFactor < 10000; rw [hc]; exact ired,
+                    var := hvv }
+
+/-- the static-fee case -/
 theorem swap_static (p : PoolD) (ticks : TickMap) (ps : List (Nat × PositionD)) (arrays : List Int) (amount limit : Nat)
     (isInput aToB : Bool) (now fuel : Nat) (u : PostSwap)
     (hts : 0 < p.ts) (hseq : SeqOK arrays p.ts aToB)
@@ -718,29 +691,8 @@ theorem swap_static (p : PoolD) (ticks : TickMap) (ps : List (Nat × PositionD))
     (u.liq : Int) = sumBy (inRangeLiq u.tick) ps ∧ TickFacts u.ticks ps p.ts ∧ TP u.tick u.price ∧ u.liq ≤ U128_MAX ∧
     u.afInfo = none ∧
     (if aToB then adjLimit limit aToB ≤ u.price ∧ u.price ≤ p.price else p.price ≤ u.price ∧ u.price ≤ adjLimit limit aToB) := by
-  obtain ⟨g1, g2, g3, _⟩ := C03.swap_limit_guard _ _ _ _ _ _ _ _ _ _ _ h
-  obtain ⟨rewards, fm, s, hfm, hloop, hfin⟩ := swap_parts _ _ _ _ _ _ _ _ _ _ _ h
-  unfold FeeMgr.new at hfm
-  cases hfm
-  have ok : CtxOK (swapCtxOf p arrays limit isInput aToB rewards) :=
-    { ts := hts, consec := hseq.1, aligned := hseq.2, lim_lo := g1, lim_hi := g2 }
-  have P0 : Path (swapCtxOf p arrays limit isInput aToB rewards) ps p.price (swapInit p ticks amount aToB (.static p.feeRate)) :=
-    { liq := hliq, tf := tf, tp := tp,
-      lim := by
-        show if aToB = true then adjLimit limit aToB ≤ p.price ∧ p.price ≤ p.price else p.price ≤ p.price ∧ p.price ≤ adjLimit limit aToB
-        by_cases hd : aToB = true
-        · rw [if_pos hd] at g3 ⊢; exact ⟨Nat.le_of_lt g3, Nat.le_refl _⟩
-        · rw [if_neg hd] at g3 ⊢; exact ⟨Nat.le_refl _, Nat.le_of_lt g3⟩,
-      fm := ⟨p.feeRate, rfl, hfee⟩, remU := hamt, liqU := hL }
-  have P := loop_path _ ps p.price ok fuel _ none s P0 (fun _ _ _ _ he => by cases he) hloop
-  obtain ⟨r, hr, _⟩ := P.fm
-  unfold swapFinish at hfin
-  split at hfin
-  · cases hfin
-  · rw [hr] at hfin
-    unfold FeeMgr.updateMajorSwapTs at hfin
-    simp only [] at hfin
-    cases hfin
-    exact ⟨P.liq, P.tf, P.tp, P.liqU, rfl, P.lim⟩
+  obtain ⟨a, b, c, d, e, f, _⟩ := swap_path p ticks ps arrays amount limit isInput aToB now fuel none u hts hseq hliq tf tp hL hfee hamt
+    (fun _ hh => by cases hh) h
+  exact ⟨a, b, c, d, f rfl, e⟩
 
 end WP.Path
